@@ -42,6 +42,58 @@ def has(st, sub, pol=True, also=()):
     return any(p == pol and all(s in a for s in subs) for a, p in st)
 
 
+def whole_container_loops(f, what):
+    """loops that visit every element of the container whose rendering contains `what`, in order: a range-for over it, or an index loop
+    `for (i = 0[, e = X.size()]; i !=|< e|X.size(); ++i)` whose body reads X[i] and never writes i.  -> [(loop node, element name)]: the
+    range-for variable, or the local initialised from X[i] (None when the body uses X[i] directly)."""
+    out = []
+    for n in f.nodes:
+        if n.get("k") == "forrange" and what in expr_str(n.child("range")):
+            out.append((n, n.get("var")))
+            continue
+        if n.get("k") != "for" or "init" not in n or "c" not in n or "inc" not in n:
+            continue
+        ivars = [v for d in n.child("init").walk() if d.get("k") == "decl" for v in d.get("vars", [])]
+        idx = [v for v in ivars if "init" in v and strip_casts(f.nodes[v["init"]]) is not None and strip_casts(f.nodes[v["init"]]).get("k") == "int" and strip_casts(f.nodes[v["init"]]).get("v") == 0]
+        if len(idx) != 1:
+            continue
+        i = idx[0]
+        c = core(n.child("c"))
+        if c is None or c.get("k") != "bin" or c.get("op") not in ("!=", "<"):
+            continue
+        l, r_ = core(c.child("l")), core(c.child("r"))
+        if l is None or l.get("did") != i["did"] or r_ is None:
+            continue
+        bound = expr_str(r_)
+        if r_.get("k") == "ref":
+            bv = [v for d in f.nodes if d.get("k") == "decl" for v in d.get("vars", []) if v.get("did") == r_.get("did") and "init" in v]
+            bound = expr_str(core(f.nodes[bv[0]["init"]])) if bv and len(set(v["init"] for v in bv)) == 1 else bound
+        if not (what in bound and bound.endswith(".size()")):
+            continue
+        cont = bound[:-len(".size()")]
+        inc = core(n.child("inc"))
+        if inc is None or inc.get("k") != "un" or "++" not in inc.get("op", "") or core(inc.child("e")).get("did") != i["did"]:
+            continue
+        body = n.child("body")
+        wr = [x for x in body.walk() if x.get("k") == "bin" and x.get("op", "").endswith("=") and x["op"] not in ("==", "!=", "<=", ">=") and
+              core(x.child("l")) is not None and core(x.child("l")).get("did") == i["did"]] + \
+             [x for x in body.walk() if x.get("k") == "un" and ("++" in x.get("op", "") or "--" in x.get("op", "")) and core(x.child("e")).get("did") == i["did"]]
+        if wr:
+            continue
+        elem = "%s[%s]" % (cont, i["n"])
+        reads = [x for x in body.walk() if expr_str(core(x) or x) == elem]
+        if not reads:
+            continue
+        name = None
+        for d in body.walk():
+            if d.get("k") == "decl":
+                for v in d.get("vars", []):
+                    if "init" in v and expr_str(core(f.nodes[v["init"]])) == elem:
+                        name = v["n"]
+        out.append((n, name if name else elem))
+    return out
+
+
 def db_is_null(atom, pol, aliases=()):
     """does the fact (atom, pol) say that no database is attached?  (whatever the spelling of the test; `aliases` are
     locals initialised from the handle, as in `if (BuildDB *d = db.get())` or `bool haveDB = db != nullptr`)"""
@@ -290,7 +342,8 @@ def r_dep_record(prog, rep):
     f = efn(prog, "executeTasks")
     dep = [c for c in f.calls("DependencyKeyIDs::push_back")]
     # the element-wise append of discovered dependencies (R-DISCOVERED-APPEND's business) is not a request being recorded
-    dep = [c for c in dep if not any(a.get("k") == "forrange" and "discoveredDependencies" in expr_str(a.child("range")) for a in f.ancestors(c))]
+    dloops = [n for n, _e in whole_container_loops(f, "discoveredDependencies")]
+    dep = [c for c in dep if not any(a is l_ for a in f.ancestors(c) for l_ in dloops)]
     if not dep:
         r.violation("executeTasks|dependency-recorded", "a task's input request is never recorded as a dependency of the requesting rule", f)
         return
@@ -393,14 +446,15 @@ def r_discovered_append(prog, rep):
         app_node = app[0]
     elif not app:
         # the element-wise form: a loop over the discovered list that pushes every element, flags included, with nothing skipped
-        loops = [n for n in f.nodes if n.get("k") == "forrange" and "discoveredDependencies" in expr_str(n.child("range")) and
-                 any(c.get("k") == "call" and (c.get("fn") or "").endswith("DependencyKeyIDs::push_back") and expr_str(c.child("obj")).endswith("result.dependencies") for c in n.walk())]
+        loops_e = [(n, en) for n, en in whole_container_loops(f, "discoveredDependencies") if
+                   any(c.get("k") == "call" and (c.get("fn") or "").endswith("DependencyKeyIDs::push_back") and expr_str(c.child("obj")).endswith("result.dependencies") for c in n.walk())]
+        loops = [n for n, _e in loops_e]
         if len(loops) != 1:
             r.violation("executeTasks|append-present", "the discovered dependencies of a finished task are not added to the rule's recorded dependencies", f)
             return
         lp = loops[0]
         pb = [c for c in lp.walk() if c.get("k") == "call" and (c.get("fn") or "").endswith("DependencyKeyIDs::push_back")]
-        vn = lp.get("var") or "dependency"
+        vn = loops_e[0][1] or "dependency"
         args = [expr_str(core(a)) for a in arg_nodes(pb[0])]
         ok = len(pb) == 1 and args == ["%s.keyID" % vn, "%s.orderOnly" % vn, "%s.singleUse" % vn]
         r.check(ok, "executeTasks|append-roles", "", "element-wise append records %s" % args, f, pb[0])
@@ -416,7 +470,7 @@ def r_discovered_append(prog, rep):
         skips = [x for x in lp.child("body").walk() if x.get("k") in ("continue", "break", "return", "goto")]
         r.check(plain and not skips, "executeTasks|append-complete", "", "a discovered dependency can be left out of the recorded list (the element-wise append is conditional): "
                 "a key that is also recorded as an order-only or single-use input would then never trigger a re-run", f, pb[0])
-        app_node = lp.child("range")
+        app_node = lp.child("range") if lp.get("k") == "forrange" else lp.child("c")
     else:
         raise AnalysisBroken("executeTasks: %d appends of discovered dependencies" % len(app))
     ft = finished_take(prog, f)
@@ -1488,18 +1542,18 @@ def r_discovered_demanded(prog, rep):
     r = rep.rule("R-DISCOVERED-DEMANDED", "every discovered dependency of a finished task is demanded in the same build (a task-less input request per dependency, "
                                           "queued under the request mutex), so its rule is brought up to date before dependents compare epochs", floor=2)
     f = efn(prog, "executeTasks")
-    loops = [n for n in f.nodes if n.get("k") == "forrange" and "discoveredDependencies" in expr_str(n.child("range")) and
+    loops = [(n, en) for n, en in whole_container_loops(f, "discoveredDependencies") if
              any(c.get("k") == "call" and (c.get("fn") or "").endswith("push_back") and "obj" in c and expr_str(c.child("obj")) == "inputRequests" for c in n.walk())]
     ok = len(loops) == 1
     if ok:
-        lp = loops[0]
+        lp, elem = loops[0]
         pb = [c for c in f.calls("push_back") if expr_str(c.child("obj")) == "inputRequests" and any(x is c for x in lp.walk())]
         ok = len(pb) == 1
         if ok:
             got = aggregate_init(prog, arg_nodes(pb[0])[0], "TaskInputRequest") or {}
             ls = LockSets(f)
             # the flags of a task-less request are never read (nothing is recorded and no value is delivered for it): only the null task and the rule matter
-            ok = got.get("taskInfo") == "nullptr" and "getRuleInfoForKey(" in got.get("inputRuleInfo", "") and "dependency.keyID" in got.get("inputRuleInfo", "") and \
+            ok = got.get("taskInfo") == "nullptr" and "getRuleInfoForKey(" in got.get("inputRuleInfo", "") and ("%s.keyID" % elem) in got.get("inputRuleInfo", "") and \
                 "inputRequestsMutex" in (ls.held_at_node(pb[0]) or set()) and \
                 not any(x.get("k") in ("break", "continue", "return") for x in lp.child("body").walk())
     r.check(ok, "executeTasks|discovered-dependencies-demanded", "", "discovered dependencies are not all demanded in the build that discovered them", f)
